@@ -58,11 +58,12 @@ EXTRA = {
  'C01': DEF + " A branch of the code on a symbolic value (none in the unmodified tree) is explored by the path executor, each path under its own condition.",
  'C02': " Call-position independence: the rows of a chunk are also run as rows w, w+1, ... of a longer kernel call with a symbolic w >= 0 (the chunk-split law for a prefix of any length).",
  'C03': DEF, 'C04': DEF + " propagate_errors on three rows with a symbolic ratio of the two intervals (irregular stamps).", 'C05': DEF, 'C06': DEF, 'C11': DEF,
- 'C07': " Thorough tier: up to 4 states x 2 observations.",
+ 'C07': " Thorough tier: up to 4 states x 2 observations. A branch of the function on a symbolic value (none in the unmodified tree) is explored by the path executor.",
  'C08': " Further families: F given as an integer-typed array (the dtype of an argument must not leak: a store of a real-valued quantity into an integer array is a failed obligation) and an exactly diagonal F with the divisors of any closed-form path shown non-zero for all rates.",
  'C09': " Every division by a symbolic time quantity must have a divisor that cannot be zero on the path.",
  'C10': " Every division by a symbolic time quantity must have a divisor that cannot be zero on the path.",
- 'C13': " The no-altitude flag is also passed as a falsy numpy boolean and as 0.",
+ 'C13': " The no-altitude flag is also passed as a falsy numpy boolean and as 0; measurement objects are queried in the 2D mode after a 3D query on the same object.",
+ 'C14': " Parameters.from_EstimationModel is executed with symbolic standard draws: mean and variance of every simulated element equal the model's (asymmetric patterns).",
  'C15': " Near-uniform interval ratios and non-canonical column layouts of the Imu frame are part of the oracle and of the symbolic frames; if the code leaves what the symbolic run can follow, the numeric oracle decides on the compiled code (reported as such).",
  'C17': " Every divisor inside mat_from_rotvec is shown non-zero on its branch (all rotation vectors up to a half turn).",
  'C18': " A layout with permuted columns checks that tables are identified by column names.",
